@@ -622,7 +622,7 @@ func tryReplay(o *Obligation, repo, scratch string) (string, bool) {
 		}
 	}
 	var oldNames []string
-	if o.Kind == "post" && c.fc != nil {
+	if (o.Kind == "post" || o.Kind == "inv-step" || o.Kind == "inv-init") && c.fc != nil {
 		for i, od := range c.fc.Olds {
 			if usesGhostIntrinsic(od.Expr) {
 				oldNames = nil
@@ -647,7 +647,7 @@ func tryReplay(o *Obligation, repo, scratch string) (string, bool) {
 		sb.WriteString("\t" + call + "\n")
 	}
 	// evaluate postconditions that are executable (no ghost intrinsics)
-	if o.Kind == "post" && c.fc != nil && len(oldNames) == len(c.fc.Olds) {
+	if (o.Kind == "post" || o.Kind == "inv-step" || o.Kind == "inv-init") && c.fc != nil && len(oldNames) == len(c.fc.Olds) {
 		for i, en := range c.fc.Ensures {
 			if usesGhostIntrinsic(en.Expr) {
 				continue
